@@ -122,19 +122,19 @@ func scenC10(r *Run) {
 		case mode == "loss":
 			k = r.PlanOf("none", "abort", "cancel", "close", "reset")
 		case i == 0:
-			k = r.PlanOf("silence", "slow", "silence", "slow", "drop", "lossy", "accepterr", "writeerr")
+			k = r.PlanOf("silence", "slow", "silence", "slow", "drop", "lossy", "accepterr", "writeerr", "freeze")
 		default:
 			k = r.PlanOf("none", "abort", "cancel", "abort", "cancel", "slow", "silence")
 		}
 		if k == "none" {
 			continue
 		}
-		if k == "writeerr" && kind == "udp" {
+		if (k == "writeerr" || k == "freeze") && kind == "udp" {
 			k = "close"
 		}
 		if !fx.HasConns() {
 			switch k {
-			case "close", "reset", "writeerr":
+			case "close", "reset", "writeerr", "freeze":
 				k = "abort"
 			case "silence", "drop", "lossy":
 				if kind != "udp" {
@@ -145,7 +145,8 @@ func scenC10(r *Run) {
 			k = "silence"
 		}
 		switch k {
-		case "close", "reset", "silence", "writeerr":
+		case "close", "reset", "silence", "writeerr", "freeze":
+			// (freeze: the peer stops reading at that point; what is written piles up until a write blocks)
 			if kind == "udp" {
 				dir := r.PlanOf("c2s", "s2c")
 				from := r.Plan(4)
